@@ -186,7 +186,7 @@ def main():
                             fam.append(prog(pid(), src, astp, "m", "", "", tag))
     # family P X{n,m} Q Y{k,l} R : two counted repeats on one path (the VM keeps one repeat counter per fiber; `.{n,m}` has its own opcodes)
     XS2 = [(".", cls_hex(set(range(256)) - {0x0a})), ("a", "B 61 ff 0"), ("[ab]", cls_hex(set(b"ab")))]
-    reps2 = [(1, 1), (2, 2), (3, 3), (0, 1), (1, 2), (0, 2), (2, 3)] + ([] if quick else [(1, 3), (2, 4), (1, -1), (0, -1)])
+    reps2 = [(1, 1), (2, 2), (3, 3), (0, 1), (1, 2), (0, 2), (2, 3), (1, -1)] + ([] if quick else [(1, 3), (2, 4), (0, -1)])
     for P in ("", "b"):
         for Q in ("", "b", "a"):
             for R in ("", "b"):
